@@ -38,7 +38,9 @@ var c17Maps = []entMaps{
 		rev: [][2]string{{"\"", "&#34;"}, {"'", "&#39;"}, {"<", "&lt;"}}},
 	// not HTML: an empty replacement and a one-letter name (in-place compaction corner cases)
 	{name: "odd", html: false,
-		ent: [][2]string{{"e", ""}, {"a", "x"}, {"bb", "&a;"}, {"amp", "&"}, {"q", "&"}},
+		ent: [][2]string{{"e", ""}, {"a", "x"}, {"b", "x"}, {"bb", "&a;"}, {"amp", "&"}, {"q", "&"},
+			{"n234567890123456789012345678901", "1"}, {"n2345678901234567890123456789012", "2"}, {"n23456789012345678901234567890123", "3"},
+			{"CounterClockwiseContourIntegral", "&#8755;"}},
 		rev: [][2]string{{"x", "&a;"}, {"y", "&#121;"}}},
 }
 
@@ -170,6 +172,10 @@ var entFrags = []string{"&", "&", "#", "x", ";", ";", "&#", "&#x", "&#X", "0", "
 	"a", "f", "F", "A", "g", "amp", "lt", "gt", "quot", "Tab", "AElig", "num", "semi", "e", "bb", "q", "am", "p", "l", "t",
 	"&amp;", "&lt;", "&#38;", "&#x26;", "&#60;", "&#x3c;", "&#35;", "&#59;", "&#120;", "&#112;", "&#x41;", "&#65;", "&#0;", "&#x80;", "&#x3E8;", "&#x2710;",
 	"&AElig;", "&hellip;", "&nbsp;", "&CounterClockwiseContourIntegral;", "&a;", "&e;", "&bb;", "&q;", "&fjlig;", "&num;", "&semi;",
+	"&LT;", "&GT;", "&QUOT;", "&AMP;", "&b;", "LT", "&lt", "&apos;",
+	"&#9;", "&#10;", "&#99;", "&#100;", "&#127;", "&#128;", "&#129;", "&#x9;", "&#xA;", "&#xf;", "&#x10;", "&#x7f;", "&#x7F;", "&#xFF;", "&#x100;",
+	"&#x3E7;", "&#x270F;", "&#x270f;", "&#1;", "&#01;", "&#x01;", "&#34;", "&#39;", "&#x22;", "&#x27;",
+	"&n234567890123456789012345678901;", "&n2345678901234567890123456789012;", "&n23456789012345678901234567890123;", "&CounterClockwiseContourIntegral",
 	" ", " ", "  ", "\n", "\t ", "z", "<", "\"", "'", "é", "=", "&#x10000000000000041;", "&#xFFFFFFFFFFFFFF41;", "&#00000000065;", "&#x000041;"}
 
 func genEntString(r *Rng, maxFrags int) []byte {
@@ -325,6 +331,21 @@ func entGen(fn string) func(r *Rng, tier string, emit func(Case)) {
 			}
 			emit(bytesCase(fn, pre, b))
 		})
+		// every numeric reference around the guards (decimal 0..300, hexadecimal 0..10100), alone and followed by text
+		for v := 0; v <= 10100; v++ {
+			if v > 300 && v < 900 && v%7 != 0 || v > 1100 && v < 9900 && v%97 != 0 {
+				continue
+			}
+			m := &c17Maps[1+v%4]
+			suffix := []string{"", "a", "#", ";", " "}[v%5]
+			emit(bytesCase(fn, m.encode(), []byte(fmt.Sprintf("&#x%x;%s", v, suffix))))
+			emit(bytesCase(fn, m.encode(), []byte(fmt.Sprintf("&#x%X;", v))))
+			if v <= 300 {
+				emit(bytesCase(fn, m.encode(), []byte(fmt.Sprintf("&#%d;%s", v, suffix))))
+				emit(bytesCase(fn, m.encode(), []byte(fmt.Sprintf("&#%03d;", v))))
+				emit(bytesCase(fn, m.encode(), []byte(fmt.Sprintf("&#%d", v))))
+			}
+		}
 		for i := 0; i < n; i++ {
 			m := &c17Maps[r.Intn(len(c17Maps))]
 			b := genEntString(r, 1+i%10)
@@ -800,6 +821,12 @@ func c17EntOracle(r *Rng, tier string, rep *Report) {
 	}
 	allStrings([]byte{'&', '#', 'x', ';', '4', '1'}, k, func(b []byte) { check(ms[len(b)%2], b) })
 	allStrings([]byte{'&', ';', 'a', 'm', 'p', '#'}, k, func(b []byte) { check(ms[1+len(b)%2], b) })
+	for v := 0; v <= 10100; v++ {
+		check(ms[v%len(ms)], []byte(fmt.Sprintf("&#x%x;", v)))
+		if v <= 300 {
+			check(ms[v%len(ms)], []byte(fmt.Sprintf("&#%d;", v)))
+		}
+	}
 	for i := 0; i < n; i++ {
 		check(ms[r.Intn(len(ms))], genEntString(r, 1+i%10))
 	}
